@@ -70,4 +70,99 @@ theorem lookupLoop_congr (d d' : Dict P T) (ks : List String)
     have := ih (fun k' hk' => h k' (by simp [hk']))
     simp [lookupLoop, hk, this]
 
+/-! ## registration order does not matter (a Python dict has one entry per key) -/
+
+theorem lookup_some_iff_mem {β : Type} (k : String) (v : β) :
+    ∀ (l : List (String × β)), (l.map (·.1)).Nodup → (l.lookup k = some v ↔ (k, v) ∈ l)
+  | [], _ => by simp
+  | (k', v') :: l, hnd => by
+    rw [List.map_cons, List.nodup_cons] at hnd
+    have ih := lookup_some_iff_mem k v l hnd.2
+    by_cases hk : k = k'
+    · subst hk
+      have hnot : (k, v) ∉ l := fun hm => hnd.1 (List.mem_map.2 ⟨(k, v), hm, rfl⟩)
+      simp only [List.lookup_cons, beq_self_eq_true, Option.some.injEq, List.mem_cons, Prod.mk.injEq, true_and,
+        hnot, or_false]
+      exact eq_comm
+    · have hk' : (k == k') = false := by simpa using hk
+      simp only [List.lookup_cons, hk', ih, List.mem_cons, Prod.mk.injEq, hk, false_and, false_or]
+
+/-- with unique keys `lookup` is invariant under permutation of the entries -/
+theorem lookup_perm {β : Type} {l l' : List (String × β)} (hp : l'.Perm l) (hnd : (l.map (·.1)).Nodup)
+    (k : String) : l'.lookup k = l.lookup k := by
+  have hnd' : (l'.map (·.1)).Nodup := (hp.map _).nodup_iff.2 hnd
+  apply Option.ext
+  intro v
+  rw [lookup_some_iff_mem k v l' hnd', lookup_some_iff_mem k v l hnd, hp.mem_iff]
+
+theorem select_perm (order : List KeyExpr) (parse : String → T) (raw raw' : List (String × RegVal P))
+    (hk : (raw.map (·.1)).Nodup) (hp : raw'.Perm raw) (cls attr : String) (g : Option T) :
+    select order (register parse raw') cls attr g = select order (register parse raw) cls attr g := by
+  cases g with
+  | some t => rfl
+  | none =>
+    simp only [select]
+    rw [lookupLoop_congr (register parse raw') (register parse raw) _
+      (fun k _ => by rw [get?_register, get?_register, lookup_perm hp hk])]
+
+/-! ## the visitor's stores -/
+
+theorem visit_fold_asg (b : Bool) : ∀ (occs : List (Occ T)) (v : Visited T),
+    (occs.foldl (visitStep b) v).asgProv = v.asgProv ++ occs.map (fun o => if b then some o.rrel else none)
+  | [], v => by simp
+  | o :: occs, v => by
+    simp only [List.foldl_cons, List.map_cons]
+    rw [visit_fold_asg b occs]
+    simp [visitStep]
+
+theorem visit_asg (b : Bool) (occs : List (Occ T)) :
+    (visit b occs).asgProv = occs.map (fun o => if b then some o.rrel else none) := by
+  simp [visit, visit_fold_asg]
+
+/-- the per-attribute slot holds what the last assignment of the attribute so far wrote -/
+theorem visit_fold_attr (b : Bool) : ∀ (occs : List (Occ T)) (v : Visited T) (done : List (Occ T)),
+    (∀ a, v.attrProv.lookup a = ((done.filter (fun o' => o'.attr = a)).getLast?).map (·.rrel)) →
+    ∀ a, (occs.foldl (visitStep b) v).attrProv.lookup a =
+      (((done ++ occs).filter (fun o' => o'.attr = a)).getLast?).map (·.rrel)
+  | [], v, done, h => by simpa using h
+  | o :: occs, v, done, h => by
+    intro a
+    have := visit_fold_attr b occs (visitStep b v o) (done ++ [o]) (by
+      intro a'
+      by_cases ha : o.attr = a'
+      · simp [visitStep, List.filter_append, ha]
+      · have hb : (a' == o.attr) = false := by simpa using fun e => ha e.symm
+        simp [visitStep, List.lookup_cons, hb, List.filter_append, ha, h a']) a
+    simpa using this
+
+theorem visit_attr (b : Bool) (occs : List (Occ T)) (a : String) :
+    (visit b occs).attrProv.lookup a = ((occs.filter (fun o' => o'.attr = a)).getLast?).map (·.rrel) := by
+  have := visit_fold_attr b occs { attrProv := [], asgProv := [] } [] (by simp) a
+  simpa [visit] using this
+
+/-- repaired visitor: the stores give back the RREL written at the assignment itself -/
+theorem refRrel_visit_repaired (occs : List (Occ T)) (i : Nat) (o : Occ T) (hi : occs[i]? = some o) :
+    refRrel (visit true occs) i o.attr = occRrel occs i := by
+  simp [refRrel, visit_asg, occRrel, hi]
+
+/-- pinned visitor: the stores give the RREL of the last assignment of the same attribute -/
+theorem refRrel_visit_pinned (occs : List (Occ T)) (i : Nat) (o : Occ T) (hi : occs[i]? = some o) :
+    refRrel (visit false occs) i o.attr = occRrelLastWins occs i := by
+  simp only [refRrel, visit_asg, occRrelLastWins, hi, List.getElem?_map, Option.map_some,
+    Bool.false_eq_true, visit_attr]
+  cases (occs.filter (fun o' => o'.attr = o.attr)).getLast? <;> rfl
+
+/-- a history sees the dictionary only through the calls it yields -/
+theorem run_congr (order : List KeyExpr) (view : P → Option (RrelObj T)) (parse : String → T) :
+    ∀ (steps : List (Step P T)) (d d' : Dict P T),
+      (∀ r, callOf order view d r = callOf order view d' r) →
+      run order view parse d steps = run order view parse d' steps
+  | [], _, _, _ => rfl
+  | s :: rest, d, d', h => by
+    cases hs : s.reg with
+    | some raw => simp only [run, hs]
+    | none =>
+      simp only [run, hs, List.cons.injEq]
+      exact ⟨List.map_congr_left (fun r _ => h r), run_congr order view parse rest d d' h⟩
+
 end Select
